@@ -200,7 +200,7 @@ func c01(r *sim.R) *sim.Violation {
 			m.AddTo(s.iface, model.DayOf(s.dirTS), b)
 		}
 		wd.fs.Restart("r")
-		if _, cl, det := wd.checkStore(m, nil, ""); cl != "" {
+		if _, cl, det := wd.CheckStore(m, nil, ""); cl != "" {
 			if v := r.Report(&sim.Violation{Clause: cl, Signature: s.classify(), Detail: fmt.Sprintf("after %s:\n%s", s, det)}); v != nil {
 				return v
 			}
@@ -226,7 +226,7 @@ func c01(r *sim.R) *sim.Violation {
 		}
 		m.Add(wo.iface, wo.block())
 		wd.fs.Restart("r")
-		if _, cl, det := wd.checkStore(m, nil, ""); cl != "" {
+		if _, cl, det := wd.CheckStore(m, nil, ""); cl != "" {
 			return r.Report(&sim.Violation{Clause: cl, Signature: "flow-level write-out, enc=" + wo.enc.String(), Detail: fmt.Sprintf("after %s:\n%s", wo, det)})
 		}
 	}
